@@ -696,6 +696,16 @@ fn f2(which: usize, sr: u32, ctx: &mut Ctx) {
 						return Ok(Some(rep));
 					}
 				}
+				// enough audio first for every internal cursor (delay lines, reverb combs of up to ~7000 frames at 192 kHz) to have moved
+				// (1700 frames: longer than the longest line at the next lower rate; one input signal is enough for this)
+				if (which == 2 || which == 3 || which == 4) && *iname == "full-scale DC" {
+					for _ in 0..54 {
+						let rep = rig::callback(&mut m, &mut buf, 32, 2);
+						if !rep.ok() {
+							return Ok(Some(rep));
+						}
+					}
+				}
 				// the device rate changes under the running effect (up and down), then the same callbacks again
 				for r2 in [8000u32, 44100, 192000] {
 					if r2 == sr {
